@@ -87,6 +87,12 @@ def run(ctx, spec, out):
 
 T0 = 1700000000
 SCHEMA_QUERY = "GET columns\nColumns: table name\nOutputFormat: json\n\n"
+# pass-through requests: judged against the answer of a single lmd over the same backends (times are unique, so a Sort by time is total)
+LOG_QUERIES = ["GET log\nColumns: time message peer_key\nOutputFormat: json\n\n",
+               "GET log\nColumns: message peer_key\nSort: time desc\nOutputFormat: json\n\n",
+               "GET log\nColumns: peer_name message\nFilter: state >= 1\nSort: time asc\nOffset: 1\nOutputFormat: json\n\n",
+               "GET log\nStats: state = 0\nStats: state = 1\nStats: max time\nOutputFormat: json\n\n",
+               "GET log\nColumns: host_name\nStats: state >= 0\nStats: sum state\nOutputFormat: json\n\n"]
 
 
 def cluster_part(ctx, v, out):
@@ -122,6 +128,11 @@ def cluster_part(ctx, v, out):
             wbs.append(wb)
             mbs.append(worldgen.model_backend(schema, wb, flags))
         gds = {"backends": [{"id": mb["id"], "name": mb["name"], "flags": mb["flags"], "tables": mb["tables"]} for mb in mbs]}
+        # a few log entries per backend, times unique over the whole cluster: the log table is not cached, every node asks its backends
+        for bi, wb in enumerate(wbs):
+            wb["tables"]["log"] = {"cols": ["time", "type", "message", "host_name", "state", "class"],
+                                   "rows": [{"time": T0 - 1000 + 17 * bi + 100 * kk, "type": rng.choice(["HOST ALERT", "SERVICE ALERT"]), "message": "m %s %d" % (wb["id"], kk),
+                                             "host_name": rng.choice(["h1", "h2"]), "state": rng.choice([0, 1, 2]), "class": 1} for kk in range(rng.choice([0, 1, 3]))]}
         cfg = {"max_parallel_peer_connections": 1, "backend_keepalive": False, "idle_timeout": 100000, "net_timeout": 5, "connect_timeout": 2}
         n += 1
         model_lines.append({"op": "sync", "id": n, "dataset": {"backends": mbs, "service_auth": "loose", "group_auth": "strict"}})
@@ -153,6 +164,7 @@ def cluster_part(ctx, v, out):
                       "GET services\nColumns: host_name\nStats: state != 9\nStats: sum state\nOutputFormat: json\n\n",
                       "GET hosts\nColumns: name\nAuthUser: alice\nOutputFormat: json\n\n"]
             texts.append(SCHEMA_QUERY)
+            texts += LOG_QUERIES
             for text in texts:
                 node = rng.choice(sorted(running))
                 nonlocal_n = add({"op": "cquery", "node": node, "text": text, "optimize": True})
@@ -218,9 +230,22 @@ def cluster_part(ctx, v, out):
     if not baseline:
         baseline = None
         v.corr_broken.append(({"text": SCHEMA_QUERY, "dataset": None}, "no answer of a single lmd for the columns table: %s" % str(bres.get(3))[:200]))
+    # the log requests on a single lmd over the backends of every scenario
+    log_base = {}
+    for si_, sc_ in enumerate(scen):
+        bl = [{"op": "clock", "id": 1, "seconds": T0}, {"op": "cluster", "id": 2, "config": {"max_parallel_peer_connections": 1, "backend_keepalive": False}, "backends": sc_["dataset"]["world"], "nodes": 1, "start": [0]}]
+        for qi, text in enumerate(LOG_QUERIES):
+            bl.append({"op": "cquery", "id": 10 + qi, "node": 0, "text": text, "optimize": True})
+        bl.append({"op": "cend", "id": 99})
+        _, lres, _, _ = common._run_once(ctx["binary"], bl, scratch + "-logbase", 120)
+        for qi, text in enumerate(LOG_QUERIES):
+            try:
+                log_base[(si_, text)] = json.loads((lres.get(10 + qi) or {}).get("body") or "")
+            except ValueError:
+                pass
     totals = {"scenarios": nscen, "steps": 0, "queries": 0, "distributed_answers": 0}
     known = {f.get("id") for f in common.load_known_findings() if f.get("property") == "C18" and f.get("status", "open") == "open"}
-    for sc, chunk, (rc, impl, err, timed_out) in zip(scen, chunks, outs):
+    for sc_index, (sc, chunk, (rc, impl, err, timed_out)) in enumerate(zip(scen, chunks, outs)):
         case0 = {"text": "cluster of %d nodes, backends %s" % (sc["k"], sc["backends"]), "dataset": None, "extra": {"part": "cluster", "lines": chunk}}
         if rc != 0 or timed_out:
             v.violations.append(("crash", case0, "the cluster run ended (%s): %s" % ("timeout" if timed_out else "status %s" % rc, common.panic_excerpt(err) or err[-800:])))
@@ -281,6 +306,26 @@ def cluster_part(ctx, v, out):
                     totals["distributed_answers"] += 1
                 qcase = {"text": text, "optimize": True, "dataset": sc["dataset"], "has_header_row": queryfam.has_header_row(text), "dataset_hash": common.case_hash(sc["backends"]) + str(qid),
                          "extra": {"part": "cluster", "asked_node": node, "running": st["running"], "assignment": assigned, "step": st["what"], "lines": [l for l in chunk if l["id"] <= qid and l["op"] != "cquery"] + [l for l in chunk if l["id"] == qid]}}
+                if text in LOG_QUERIES:
+                    v.stats["evaluated"] += 1
+                    want = log_base.get((sc_index, text))
+                    try:
+                        rows = json.loads((impl.get(qid) or {}).get("body") or "")
+                    except ValueError:
+                        rows = None
+                    if want is None:
+                        v.corr_broken.append((qcase, "no answer of a single lmd to compare with"))
+                    elif rows is None:
+                        v.violations.append(("property", qcase, "a node of the cluster did not answer the log request a single lmd answers: %s" % str(impl.get(qid))[:300]))
+                    else:
+                        ordered = "Sort:" in text
+                        a = [json.dumps(r) for r in rows]
+                        b = [json.dumps(r) for r in want]
+                        if (a != b) if ordered else (sorted(a) != sorted(b)):
+                            v.violations.append(("property", qcase, "log request: a node of the cluster answers %s, a single lmd over the same backends %s" % (str(rows)[:400], str(want)[:400])))
+                        else:
+                            v.bump("log request in a cluster ok")
+                    continue
                 if text == SCHEMA_QUERY:
                     # lmd's own schema: the same list whoever is asked, every line once
                     v.stats["evaluated"] += 1
